@@ -273,13 +273,13 @@ class Contract:
         return ()
 
     def qualname(self):
-        return '%s.%s' % (self.module, self.name)
+        return '%s.%s' % (self.module, getattr(self, 'key', None) or self.name)
 
 
 def register(*modules):
     def deco(cls):
         for m in modules:
-            REGISTRY[(m, cls.name)] = cls(m)
+            REGISTRY[(m, getattr(cls, 'key', None) or cls.name)] = cls(m)
         return cls
     return deco
 
@@ -460,10 +460,10 @@ class Engine:
                     ob.name = '%s.%s[%s]' % (k.qualname(), ob.name, pid)
                     obls.append(ob)
                 n0 = len(c.obligations)
-                rs = list(k.raises(*p.args))
+                rs = [(r[0], r[1], r[2], r[3] if len(r) > 3 else r[2]) for r in k.raises(*p.args)]
                 if p.outcome[0] == 'return':
                     # a normal return must not be a case where the contract demands an exception
-                    for nm, exc, cond in rs:
+                    for nm, exc, cond, may in rs:
                         c.oblige('%s.raises.%s.no_miss[%s]' % (k.qualname(), nm, pid), T.Not(cond))
                     for nm, cond in k.ensures(*(list(p.args) + [p.outcome[1]])):
                         if nm.startswith('~'):
@@ -473,7 +473,7 @@ class Engine:
                         c.assume(cond, hyp=False)      # cut: later clauses may use earlier (proved) ones as facts
                 else:
                     e = p.outcome[1]
-                    allowed = [(nm, cond) for nm, exc, cond in rs if isinstance(e, exc)]
+                    allowed = [(nm, may) for nm, exc, cond, may in rs if isinstance(e, exc)]
                     if not allowed:
                         c.oblige('%s.no_exception[%s] (%s: %s)' % (k.qualname(), pid, type(e).__name__, e),
                                  False)
